@@ -88,10 +88,12 @@ func (g *GroupMod) MarshalBinary() (data []byte, err error) {
 	n += 4
 	data = append(data, bytes...)
 
-	for _, bkt := range g.Buckets {
-		bytes, err = bkt.MarshalBinary()
-		data = append(data, bytes...)
-		log.Debugf("Groupmod bucket: %v", bytes)
+	if g.Command != OFPGC_DELETE {
+		for _, bkt := range g.Buckets {
+			bytes, err = bkt.MarshalBinary()
+			data = append(data, bytes...)
+			log.Debugf("Groupmod bucket: %v", bytes)
+		}
 	}
 
 	log.Debugf("GroupMod(%d): %v", len(data), data)
